@@ -193,9 +193,57 @@ def dispatcher(ctx):
     return out
 
 
+def permission_updates(ctx):
+    """GRANT / REVOKE <perm> rebuild the user record: everything except the permission map must be
+    carried over from the stored record - in particular `active` (a revoked key stays revoked)"""
+    out = []
+    for oid, fn_name in (("B-4g", "grant_permission"), ("B-4r", "revoke_permission")):
+        b = Builder(ctx, f"auth-permission_ops-{fn_name}-{{closure#0}}.", f"permission_ops::{fn_name}", {})
+        E = b.E
+        r = b.mk(oid, f"{fn_name}: the user record that is persisted (store_user_in_db) and cached (update_caches) keeps "
+                      f"the stored record's `active` flag and secret key - changing permissions never re-activates a "
+                      f"revoked user")
+        out.append(b.results[oid])
+        if not r:
+            continue
+        sinks = oblig.events(E, r"store_user_in_db$") + oblig.events(E, r"update_caches$")
+        if not oblig.need_anchor(r, sinks, "store_user_in_db / update_caches"):
+            continue
+        r.nontrivial = True
+        for ev in sinks:
+            r.anchors.append(f"{ev.short}@bb{ev.bb}")
+            rec = None
+            for a in ev.args:
+                v = a
+                if isinstance(v, sym.Ref):
+                    v, _ = E.read_place(ev.env, v.place)
+                if isinstance(v, sym.Agg) and v.names and "active" in v.names:
+                    rec = v
+            if rec is None:
+                r.status = "inconclusive"
+                r.notes.append(f"user record passed to {ev.short} not resolved to a struct literal")
+                break
+            act = rec.field("active")
+            uk, _ = E.var(ev.env, "user_key")
+            src = E.trace(act, ev.env, depth=3) if not sym.is_term(act) else set()
+            ok = (not sym.is_term(act) or not (z3.is_true(act) or z3.is_false(act))) and uk is not None and \
+                any(x.startswith(sym.describe(uk)) and re.search(r"\.(active|2)$", x) for x in ({sym.describe(act)} | src))
+            sk = rec.field("secret_key")
+            sk_ok = sk is None or any(sym.describe(uk) in x for x in E.trace(sk, ev.env, depth=4) | {sym.describe(sk)})
+            if not ok or not sk_ok:
+                r.status = "violated"
+                r.witness = {"what": f"the record handed to {ev.short} does not carry over the stored `active` flag / key "
+                                     f"(active = {sym.describe(act)})",
+                             "span": f"{ev.span[0]}:{ev.span[1]}" if ev.span else None, "call": ev.func[:100],
+                             "path": [], "model": {}}
+                break
+    return out
+
+
 def obligations(ctx):
     out = []
     out += summaries(ctx)
+    out += permission_updates(ctx)
     for (oid, needle, label, perm, eff, opt) in HANDLERS:
         out += gate(ctx, oid, needle, label, perm, eff, opt)
     out += dispatcher(ctx)
